@@ -574,8 +574,8 @@ func (s *State) evalIndexRangeExpression(left object.Object, leftIdx, rightIdx a
 	if l > r {
 		return s.NewError("range index invalid: left greater then right")
 	}
-	l = min(l, int64(num))
-	r = min(r, int64(num))
+	l = max(0, min(l, int64(num))) // clamp both ways: "abc"[-5:1] is "a" not a go slice bounds panic.
+	r = max(0, min(r, int64(num)))
 	switch left.Type() {
 	case object.STRING:
 		str := left.(object.String).Value
@@ -1347,7 +1347,7 @@ func (s *State) evalIntegerInfixExpression(operator token.Type, leftVal, rightVa
 		return object.Integer{Value: leftVal ^ rightVal}
 	case token.COLON:
 		lg := rightVal - leftVal
-		if lg < 0 {
+		if rightVal < leftVal { // (lg can overflow)
 			return s.NewError("range index invalid: left greater then right")
 		}
 		arr := object.MakeObjectSlice(int(lg))
